@@ -441,7 +441,10 @@ verif_commit_done:;
     // sampling the ideal at random
     // TODO replace these two steps with a clean function that samples random ideals from a right
     // order
-    sampling_random_ideal_O0(&lideal_aux, &tmp, 0);
+    if (!sampling_random_ideal_O0(&lideal_aux, &tmp, 0)) {
+        found = 0;
+        goto cleanup;
+    }
 
     // pushing forward
     quat_lideal_inter(&lideal_aux_com, &lideal_commit, &lideal_aux, &QUATALG_PINFTY);
